@@ -59,6 +59,7 @@ type Contract struct {
 	Trusted  bool
 	Lets     []Clause // Label = name
 	Requires []Clause
+	ClosureInv []Clause // holds between complete calls of a range-over-func body closure (see iteratorCall)
 	Captures []Clause // facts about captured variables: proved where the closure is created, assumed at its entry
 	Ensures  []Clause
 	Assigns  []string
@@ -107,7 +108,9 @@ type ContractFile struct {
 	Lemmas    []*Lemma
 }
 
-var kwRe = regexp.MustCompile(`^(func|mode|inline|trusted|param|let|requires|ensures|assigns|loop|invariant|modifies|decreases|rel|chain|assume_at_call|pathkey|spec|lemma|opt|captures)\b`)
+var kwRe = regexp.MustCompile(`^(func|mode|inline|trusted|param|let|requires|ensures|assigns|loop|invariant|modifies|decreases|rel|chain|assume_at_call|pathkey|spec|lemma|opt|captures|closure_inv)\b`)
+
+var unknownDirRe = regexp.MustCompile(`^[a-z_]+\s+[A-Za-z_(\[!*"0-9]`)
 
 func ParseContracts(path string) (*ContractFile, error) {
 	f, err := os.Open(path)
@@ -141,6 +144,9 @@ func ParseContracts(path string) (*ContractFile, error) {
 		}
 		if kwRe.MatchString(trimmed) || len(lines) == 0 {
 			lines = append(lines, logical{trimmed, ln})
+		} else if unknownDirRe.MatchString(trimmed) {
+			// "word expr" is never the continuation of an expression: a misspelt or unknown directive
+			return nil, fmt.Errorf("%s:%d: unknown directive %q", path, ln, strings.Fields(trimmed)[0])
 		} else {
 			lines[len(lines)-1].text += " " + trimmed
 		}
@@ -296,7 +302,7 @@ func ParseContracts(path string) (*ContractFile, error) {
 					return nil, err
 				}
 				cur.Lets = append(cur.Lets, Clause{Label: strings.TrimSpace(rest[:i]), Src: rest, Expr: e, Line: l.line})
-			case "requires", "ensures", "invariant", "decreases", "rel", "captures":
+			case "requires", "ensures", "invariant", "decreases", "rel", "captures", "closure_inv":
 				label := ""
 				if strings.HasPrefix(rest, "[") {
 					j := strings.Index(rest, "]")
@@ -317,6 +323,8 @@ func ParseContracts(path string) (*ContractFile, error) {
 					cur.Requires = append(cur.Requires, c)
 				case "captures":
 					cur.Captures = append(cur.Captures, c)
+				case "closure_inv":
+					cur.ClosureInv = append(cur.ClosureInv, c)
 				case "ensures":
 					cur.Ensures = append(cur.Ensures, c)
 				case "rel":
